@@ -77,7 +77,7 @@ def check_instance(inst, F, ctx, extra):
     I = Items(inst)
     V = View(inst, I, F)
     did = False
-    it = I.assoc_fn('try_from')
+    it = I.require_fn(ctx, 'try_from')
     if it is not None:
         did = True
         check_try_from(inst, V, ctx, I.body(it['path']), 'try_from', 'Some')
@@ -88,7 +88,7 @@ def check_instance(inst, F, ctx, extra):
         for im, p in fs:
             did = True
             check_try_from(inst, V, ctx, I.body(p), 'TryFrom', 'Ok')
-    it = I.assoc_fn('into')
+    it = I.require_fn(ctx, 'into')
     if it is not None:
         did = True
         check_into(inst, I, ctx, it['path'], 'into')
